@@ -2,6 +2,7 @@
 from fractions import Fraction
 
 from ..common import rng
+from ..drivers import behaviours
 from ..drivers import programs, targeted
 from ._twin import replay_programs, run_programs
 
@@ -31,6 +32,20 @@ def check(run, tier):
         p = programs.worklist_program(r, f"C03/r{i}", dev, r.randint(1, 6), fault_last=True, autosplit=auto,
                                       wlmax=r.choice([2, 3, 5]), unit=Fraction(1) if i % 3 else Fraction(1, 4), comps=(i % 3 != 0))
         progs.append(p)
+    # specification -> code: behaviours enumerated by TLC on the bounded model, replayed on the implementation
+    for cfg in ("MC_TwinGen_mixed2_nosplit", "MC_TwinGen_distribute1") if q else ("MC_TwinGen_mixed2_nosplit", "MC_TwinGen_distribute1", "MC_TwinGen_distribute1_fluent", "MC_TwinGen_mixed3"):
+        mprogs, res = behaviours.generate(cfg, timeout=3000)
+        if not mprogs:
+            run.machinery_errors.append(f"behaviour generation with {cfg} failed: {res.errors[:2]}")
+        run.states += res.distinct
+        run.transitions += res.generated
+        if q and len(mprogs) > 400:
+            # quick tier: a seeded sample of the enumerated behaviours (thorough replays all of them)
+            k = len(mprogs) // 400 + 1
+            mprogs = mprogs[r.randrange(k)::k]
+        run.extra.setdefault("model_behaviours_replayed", 0)
+        run.extra["model_behaviours_replayed"] += len(mprogs)
+        progs += mprogs
     traces = run_programs(run, progs)
     run.extra["programs_ending_in_rejection"] = sum(1 for t in traces if t["events"] and t["events"][-1]["out"] != "ok")
     run.assumptions += ["the file written on leaving the with-block equals the record list (checked by C17)"]
